@@ -9,6 +9,21 @@ def job(name, run, shards, checks, timeout, **kw):
 
 
 PROPS = {
+    "C01": dict(
+        pkg="c01", level="exploration",
+        technique="model-based differential testing: rapid-generated abstract schemas printed to text, instance-then-mutate documents, independent reference shape decider",
+        level_text=("Bounded exploration of schemas x documents x both option settings: Validate's verdict is compared with an independent "
+                    "recursive shape decider written from the property statement over decoded values; plus metamorphic checks (property-order "
+                    "permutation, option flip). Sampled, not exhaustive."),
+        level_note="trusted: the reference shape decider (harness/ref/shape.go) and the schema printer; depth<=5, width<=5; `1.0`-style numerals against integer examples are not judged",
+        rule=("schemas: abstract models of the rule-free fragment (objects/arrays/5 scalar kinds, depth<=4 quick / 5 thorough, optional / nullable / type any, "
+              "keys incl. empty, escaped and non-ASCII) printed one node per line; documents: instance-then-mutate (0-3 of: flip kind, int<->float, inject null, "
+              "drop/add/duplicate/reorder key, truncate/extend array, swap items), random JSON, the example itself; both option settings. "
+              "non-trivial = document root has the example's kind and (accepted with depth>=2, or rejected by a difference at depth>=1); "
+              "distinct by hash(schema text, document text, option)"),
+        assumptions=["reference shape decider is right", "schema printer emits what the model says (cross-checked by C16)"],
+        jobs=[job("shape", "^TestShape$", (4, 16), (2500, 20000), (300, 3000))],
+    ),
     "C05": dict(
         pkg="c05", level="exploration", exhaustive_claim=False,
         technique="differential testing against an independent RFC 8259 recogniser: bounded-exhaustive enumeration + rapid grammar/mutation generation + go native fuzzing",
